@@ -70,7 +70,8 @@ def gen_cases(ctx):
                "n": 3500 if big else int(rng.choice([1, 2, 7, 40, 200], p=[0.1, 0.15, 0.3, 0.35, 0.1])),
                "steps": int(rng.choice([1, 2, 4])), "tex": str(rng.choice(gen.TEXTURE_KINDS)),
                "vol": str(rng.choice(gen.VOLUME_KINDS)), "custom": bool(rng.random() < 0.5),
-               "phi": float(rng.choice([0.7, 0.5, rng.uniform(0.01, 0.99)]))}
+               "phi": float(rng.choice([0.7, 0.5, rng.uniform(0.01, 0.99)])),
+               "origin": str(rng.choice(ORIGINS, p=[0.5, 0.15, 0.15, 0.1, 0.1]))}
     for i in range(ctx.share(ctx.scale(40, 800))):
         rng = ctx.rng(2, i)
         yield {"kind": "reject", "seed": int(rng.integers(1 << 31)), "fault": ["n_grains", "n_snapshots", "n_fraction_lists"][i % 3]}
@@ -78,6 +79,31 @@ def gen_cases(ctx):
         for combo in ("ol", "en"):
             for k in range(24):
                 yield {"kind": "aligned", "assemblage": combo, "perm": k}
+
+
+# where the minerals handed to voigt_averages come from: built in memory with enumeration members, restored from an
+# NPZ archive through either loader (the restored phase is a NumPy integer), or built with a plain / NumPy integer phase
+ORIGINS = ["built", "from_file", "load", "int_phase", "np_phase"]
+
+
+def _reorigin(pydrex, m, origin, seed):
+    import os
+    import tempfile
+
+    if origin == "built":
+        return m
+    if origin in ("int_phase", "np_phase"):
+        m.phase = int(m.phase) if origin == "int_phase" else np.uint8(int(m.phase))
+        return m
+    with tempfile.TemporaryDirectory(prefix="pvmon-c10-") as d:
+        fn = os.path.join(d, "m.npz")
+        pf = None if seed % 2 else "pf"
+        m.save(fn, pf) if pf else m.save(fn)
+        if origin == "from_file":
+            return pydrex.Mineral.from_file(fn, postfix=pf) if pf else pydrex.Mineral.from_file(fn)
+        m2 = pydrex.Mineral(n_grains=m.n_grains)
+        m2.load(fn, postfix=pf) if pf else m2.load(fn)
+        return m2
 
 
 def _spd6(rng):
@@ -118,7 +144,9 @@ def _aggregate(ctx, pydrex, case):
     data = {}
     for ph in phases:
         data[ph] = ([gen.texture(rng, n, case["tex"])[1] for _ in range(steps)], [gen.volumes(rng, n, case["vol"])[1] for _ in range(steps)])
-    minerals = [_mineral(pydrex, ph, *data[ph]) for ph in phases]
+    origin = case.get("origin", "built")
+    minerals = [_reorigin(pydrex, _mineral(pydrex, ph, *data[ph]), origin, int(case["seed"]) + k) for k, ph in enumerate(phases)]
+    ctx.cls(f"minerals={origin}")
     scale = max(float(np.abs(S.olivine).max()), float(np.abs(S.enstatite).max()))
     tol = 1e-9 * scale
     try:
